@@ -165,12 +165,19 @@ def run_linop(ctx, prop, prop_file, n_quick, n_thorough, want):
         x = cvec(rng, A.ishape, True)
         # input stored in a REAL dtype (the operator may still be complex).  Only for trees without library-backed leaves:
         # fft/nufft of a real array is computed in complex64 by design and scipy-based convolution rejects mixed dtypes
-        real_ok = not S.opaque
-        if real_ok and rng.random() < 0.4:
+        # trees with library-backed leaves: scipy-based convolution rejects mixed dtypes (never real-dtype there);
+        # fft / nufft of a real array is computed in complex64 BY DESIGN, so for those trees a real-dtype input is
+        # judged by the numpy oracles at single-precision tolerance only (no Coq value comparison)
+        has_conv = any(type(o).__name__.startswith("Convolve") for _, o in S.opaque)
+        real_ok = not has_conv
+        single = False
+        if real_ok and rng.random() < (0.4 if not S.opaque else 0.25):
             x = np.ascontiguousarray(x.real)
+            single = bool(S.opaque)
         yv = cvec(rng, A.oshape, True)
         if real_ok and rng.random() < 0.25:
             yv = np.ascontiguousarray(yv.real)
+            single = single or bool(S.opaque)
         x0, yv0 = x.copy(), yv.copy()
         snaps = [(a, a.copy()) for _, a in S.arrays.values()]
         try:
@@ -181,7 +188,7 @@ def run_linop(ctx, prop, prop_file, n_quick, n_thorough, want):
                     note_fail("oshape", "output shape %s differs from the advertised %s" % (list(y.shape), list(A.oshape)),
                               {"kind": "oracle", "tree": desc, "observed_shape": list(y.shape)})
             nop = len(S.opaque)
-            if "apply" in want:
+            if "apply" in want and not single:
                 add(apply_case(S, T, A, x, y, S.all_integer() and not S.opaque), "apply", info)
             if "dense" in want and int(np.prod(A.ishape)) <= 40:
                 M = linser.dense(A)
@@ -192,7 +199,8 @@ def run_linop(ctx, prop, prop_file, n_quick, n_thorough, want):
                 # ... and on the generated input itself, in the dtype it is stored in (a real-dtype x sees casts that the
                 # complex basis vectors of `dense` do not)
                 yr = (R @ np.ravel(x0)).reshape(y.shape) if y.size == R.shape[0] else None
-                if yr is None or not np.allclose(y, yr, rtol=1e-9, atol=1e-9 * (1 + np.abs(yr).max())):
+                ta = 3e-4 if single else 1e-9
+                if yr is None or not np.allclose(y, yr, rtol=ta, atol=ta * (1 + np.abs(yr).max())):
                     note_fail("algebra-apply:" + top, "A(x) differs from the matrix expression of its parts applied to x (x stored as %s)" % x0.dtype,
                               {"kind": "oracle", "tree": desc, "term": T, "x": np.ravel(x0).tolist().__repr__(), "x_dtype": str(x0.dtype),
                                "observed": np.ravel(y).tolist().__repr__(), "expected": None if yr is None else np.ravel(yr).tolist().__repr__()})
@@ -207,19 +215,22 @@ def run_linop(ctx, prop, prop_file, n_quick, n_thorough, want):
                               {"kind": "oracle", "tree": desc, "H": [list(AH.oshape), list(AH.ishape)]})
                 else:
                     z = np.asarray(AH(yv))
-                    if "applyH" in want:
+                    if "applyH" in want and not single:
                         add(apply_case(S, TH, AH, yv, z, S.all_integer() and not S.opaque), "applyH", info)
                     if "dot" in want:
                         lhs, rhs = np.vdot(yv, y), np.vdot(z, x)     # <Ax,y> = sum Ax conj y = vdot(y, Ax)
                         scale = np.linalg.norm(y) * np.linalg.norm(yv) + np.linalg.norm(z) * np.linalg.norm(x) + 1e-30
                         tol = 1e-5 if any(k in ("fft", "ifft", "nufft", "nufft_adj") for k in c.log) else 1e-9
+                        if single:
+                            tol = 3e-4
                         if abs(lhs - rhs) > tol * scale:
                             note_fail("dot:" + top, "<A x, y> != <x, A^H y>",
                                       {"kind": "oracle", "tree": desc, "term": T, "lhs": str(lhs), "rhs": str(rhs),
                                        "x": np.ravel(x).tolist().__repr__(), "y": np.ravel(yv).tolist().__repr__()})
                         AHH = AH.H
                         y2 = np.asarray(AHH(x))
-                        if y2.shape != y.shape or not np.allclose(y2, y, rtol=1e-8, atol=1e-9 * (1 + np.abs(y).max())):
+                        th = 3e-4 if single else 1e-8
+                        if y2.shape != y.shape or not np.allclose(y2, y, rtol=th, atol=0.1 * th * (1 + np.abs(y).max())):
                             note_fail("adjadj:" + top, "A.H.H does not act like A", {"kind": "oracle", "tree": desc, "term": T})
             if want & {"normal", "applyN"}:
                 AN = A.N
@@ -229,17 +240,19 @@ def run_linop(ctx, prop, prop_file, n_quick, n_thorough, want):
                 w = np.asarray(AN(x))
                 w2 = np.asarray(A.H(A(x)))
                 toep = any(k in ("nufft",) for k in c.log)
-                if w.shape != w2.shape or not np.allclose(w, w2, rtol=1e-7, atol=1e-8 * (1 + np.abs(w2).max())):
+                tn = 3e-4 if single else 1e-7
+                if w.shape != w2.shape or not np.allclose(w, w2, rtol=tn, atol=0.1 * tn * (1 + np.abs(w2).max())):
                     note_fail("normal:" + top, "A.N x != A.H(A x)", {"kind": "oracle", "tree": desc, "term": T,
                                                                       "max_abs_diff": float(np.abs(w - w2).max()) if w.shape == w2.shape else None})
-                if "applyN" in want:
+                if "applyN" in want and not single:
                     add(apply_case(S, TN, AN, x, w, S.all_integer() and not S.opaque), "applyN", info)
             if "linear" in want:
                 a = complex(rng.randint(-3, 3), rng.randint(-3, 3))
                 x2 = cvec(rng, A.ishape, True)
                 l = np.asarray(A(a * x + x2))
                 r = a * y + np.asarray(A(x2))
-                if not np.allclose(l, r, rtol=1e-8, atol=1e-9 * (1 + np.abs(r).max())):
+                tl = 3e-4 if single else 1e-8
+                if not np.allclose(l, r, rtol=tl, atol=0.1 * tl * (1 + np.abs(r).max())):
                     note_fail("linear:" + top, "A(a x + y) != a A x + A y (complex a)",
                               {"kind": "oracle", "tree": desc, "term": T, "a": str(a)})
                 _ = A.H, A.N                      # fill the caches, then apply again
